@@ -563,7 +563,7 @@ def _dt_params(c):
     N = c.choice('N')
     if c.mode == 'conc':
         import numpy as np
-        dv = np.array(c.values['dv'], dtype=float)
+        dv = np.array(c.values.get('dv', [float(i + 1) for i in range(N)]), dtype=float)    # (models of bounded instances leave DV open)
         c.inputs.append(('arr', 'dv', ((N,), None, 'real')))
         c.concrete_funcs = {'DV': lambda i: float(dv[i])}
         dp = [dict(__obj__='DParamTuple', name='mu')]
@@ -680,3 +680,173 @@ DT = Unit(['C09', 'C18'], OPQ + 'compute_derived_trace', _dt_params, pre=_dt_pre
           doc='single process (rank 0 of 1; allreduce = identity): trace entry i is the derived value after sample i was '
               'written, in sample order even when weights tie (argsort is a function of the array content); summaries by '
               'quantile_corner (by contract); 1..4 samples at code level')
+
+
+# ------------------------------------------------------------------ Optimizer.compute_derived_trace on rank r of R processes
+def _h_allreduce_ranks(ex, st, args, kwargs, node):
+    """ASSUMED model of mpi.allreduce(list, op='SUM') (mpi4py reduces python objects with + in rank order): the
+    concatenation over the ranks 0..R-1 of the list each rank built.  What another rank q built is what this very
+    function builds there: one entry per sample index q, q+R, ... -- the derived value DV(idx), the weight of sample
+    idx, or idx itself, according to which list is being exchanged (recognised by its local content; by its name when
+    the local list is empty)."""
+    c = ex.c
+    N, R, r = c.fixed['N'], c.fixed['R'], c.fixed['rank']
+    local = st.get(args[0])
+    items = list(local.items)
+    me = st.get(st.env['self'])
+    w = st.get(me.attrs['g_weights'])
+    mine = list(range(r, N, R))
+    if len(items) != len(mine):
+        raise EngineError('allreduce model: this rank exchanged %d entries for %d samples' % (len(items), len(mine)))
+    kind = None
+    if items:
+        x = items[0]
+        if isinstance(x, int) or (is_sym(x) and z3.is_int(x)):
+            kind = 'index'
+        elif is_sym(x) and x.eq(w.elem((mine[0],))):
+            kind = 'weight'
+        else:
+            kind = 'trace'
+    else:
+        import ast as _ast
+        nm = _ast.unparse(node.args[0])
+        kind = 'index' if 'ind' in nm or 'idx' in nm else ('weight' if nm.startswith('w') else 'trace')
+    DV = _DV(c)
+    out = []
+    for q in range(R):
+        if q == r:
+            out += items
+        else:
+            for idx in range(q, N, R):
+                out.append(idx if kind == 'index' else (w.elem((idx,)) if kind == 'weight' else DV(idx)))
+    _ev(st, 'allreduce', kind)
+    return st.alloc(c, PyList(out))
+
+
+def _dtr_native(c, p):
+    """R processes simulated one after the other in this process: taurex.mpi.get_rank / nprocs / allreduce are replaced;
+    pass 1 records the list every rank hands to allreduce (k-th exchange), pass 2 runs rank r with allreduce returning
+    the rank-ordered concatenation (the assumed model of the collective)"""
+    import numpy as np
+    from taurex.optimizer.optimizer import Optimizer
+    import taurex.mpi as mpi
+    N, R, r = c.values['N'], c.values['R'], c.values['rank']
+    S, W = np.array(p['self']['g_samples'], dtype=float), np.array(p['self']['g_weights'], dtype=float)
+    state = {'last': None}
+    trace = []
+
+    class _O(Optimizer):
+        def get_samples(self, k):
+            return S
+
+        def get_weights(self, k):
+            return W
+
+        def update_model(self, v):
+            i = [k for k in range(N) if np.shares_memory(v, S[k])]
+            state['last'] = i[0] if i else None
+            trace.append(('update_model', state['last']))
+    o = _quiet(_O.__new__(_O))
+    o.derived_parameters = [('mu', '$mu$', (lambda: c.concrete_funcs['DV'](state['last'])), True)]
+    o._model = _NS(initialize_profiles=lambda: None)
+    saved = (mpi.get_rank, mpi.nprocs, mpi.allreduce)
+    handed = {}
+
+    class _Stop(Exception):
+        pass
+    try:
+        mpi.nprocs = lambda: R
+        for q in range(R):
+            mpi.get_rank = lambda comm=None, q=q: q
+            handed[q] = []
+
+            def rec(value, op, q=q):
+                handed[q].append(list(value))
+                return value
+            mpi.allreduce = rec
+            try:
+                o.compute_derived_trace(0)
+            except Exception:
+                pass
+        del trace[:]
+        mpi.get_rank = lambda comm=None: r
+        k = [0]
+
+        def red(value, op):
+            out = []
+            for q in range(R):
+                out += handed[q][k[0]] if k[0] < len(handed[q]) else []
+            k[0] += 1
+            return out
+        mpi.allreduce = red
+        res = o.compute_derived_trace(0)
+    finally:
+        mpi.get_rank, mpi.nprocs, mpi.allreduce = saved
+    return res, dict(p, __trace__=trace)
+
+
+def _dtr_post(c, v0, v1, r):
+    """as on one process: one trace entry per sample IN SAMPLE ORDER (also when weights tie), the summaries over all
+    samples; this rank writes exactly its own samples (r, r+R, ...) to the model, in order"""
+    N = c.Len(v0.self.g_weights)
+    w = v0.self.g_weights
+    fx = c.fixed if c.mode != 'conc' else c.values
+    R, rk = fx['R'], fx['rank']
+    if not isinstance(r, dict) or 'mu_derived' not in r:
+        return {'derived_entry': False}
+    e = r['mu_derived']
+    tr = e['trace']
+    d = {'one_entry_per_sample': c.Len(tr) == N}
+    if c.mode == 'conc' and not d['one_entry_per_sample']:
+        return d
+    DV = _DV(c)
+    d['entry_i_belongs_to_sample_i'] = c.Forall(0, N, lambda i: c.Eq(tr[i], DV(i)))
+    ev = [x for x in (c.trace or []) if x[0] == 'update_model']
+    want = list(range(rk, N, R))
+    d['own_samples_written_once_in_order'] = [x[1] for x in ev] == want if c.mode == 'conc' else \
+        (len(ev) == len(want) and all(x[1] is not None and z3.simplify(to_int(x[1]) - k).eq(z3.IntVal(0)) for k, x in zip(want, ev)))
+    if c.mode == 'conc':
+        import numpy as np
+        from taurex.util.util import quantile_corner
+        q16, q50, q84 = quantile_corner(np.array([DV(i) for i in range(N)]), [0.16, 0.5, 0.84], weights=np.asarray(w, dtype=float))
+        d['summary_by_the_quantile_rule'] = c.And(c.Eq(e['value'], q50), c.Eq(e['sigma_m'], q50 - q16), c.Eq(e['sigma_p'], q84 - q50))
+    else:
+        calls = [x for x in (c.trace or []) if x[0] == 'quantile_corner']
+        d['one_quantile_call'] = len(calls) == 1
+        if calls:
+            _, X, Q, Wt, out = calls[0]
+            d['quantiles_of_the_trace'] = c.And(X.shape[0] == N, c.Forall(0, N, lambda i: X.elem((i,)) == DV(i)))
+            d['with_the_sample_weights'] = c.And(Wt.shape[0] == N, c.Forall(0, N, lambda i: Wt.elem((i,)) == w[i]))
+            d['summary_by_the_quantile_rule'] = c.And(c.Eq(e['value'], out[1]), c.Eq(e['sigma_m'], out[1] - out[0]),
+                                                      c.Eq(e['sigma_p'], out[2] - out[1]))
+    d['mean'] = c.Eq(e['mean'], c.Sum(0, N, lambda j: w[j] * DV(j)) / c.Sum(0, N, lambda j: w[j]))
+    return d
+
+
+def _dtr_gen(rng):
+    d = _dt_gen(rng)
+    R = rng.randint(2, 3)
+    N = rng.randint(1, 5)
+    w = [rng.choice([0.0, rng.uniform(0, 1), 0.25]) for _ in range(N)]
+    if rng.random() < 0.4:
+        w = [0.5] * N
+    if sum(w) == 0:
+        w[0] = 0.3
+    return dict(N=N, R=R, rank=rng.randrange(R), samples=[[rng.uniform(-1, 1), rng.uniform(-1, 1)] for _ in range(N)], weights=w,
+                dv=[round(rng.uniform(1, 9), 2) for _ in range(N)])
+
+
+_DTR_CASES = [dict(N=N, R=R, rank=r) for R in (2, 3) for N in (1, 2, 3, 4) for r in range(R)]
+DTR = Unit(['C18', 'C09'], OPQ + 'compute_derived_trace', _dt_params, pre=_dt_pre, post=_dtr_post, cases=_DTR_CASES, variant='ranks',
+           native=_dtr_native, gen=_dtr_gen, bounds=[{}], safety=('index', 'sorted'), timeout_ms=30000,
+           abstract={'call:get_samples': lambda ex, st, args, kwargs, node: st.get(args[0]).attrs['g_samples'],
+                     'call:get_weights': lambda ex, st, args, kwargs, node: st.get(args[0]).attrs['g_weights'],
+                     'call:get_rank': lambda ex, st, args, kwargs, node: ex.c.fixed['rank'],
+                     'call:nprocs': lambda ex, st, args, kwargs, node: ex.c.fixed['R'],
+                     'call:allreduce': _h_allreduce_ranks, 'call:update_model': _h_um_idx,
+                     'ForwardModel.initialize_profiles': lambda ex, st, o, args, kwargs, node: None, 'DParam.get': _h_dget,
+                     'call:enableLogging': _noop, 'call:disableLogging': _noop, 'call:quantile_corner': _h_quantile},
+           inline=['derived_names', 'derived_values'], short='Optimizer.compute_derived_trace@ranks',
+           doc='rank r of R processes (2..3 ranks x 1..4 samples at code level, symbolic values and weights, ties included): the result '
+               'equals the single-process one -- trace in sample order, summaries over all samples; allreduce(list, SUM) = rank-ordered '
+               'concatenation (assumed model of the collective)')
